@@ -157,6 +157,17 @@ def table(body, fx, name_call, name_discr=None, max_paths=4000, first_effect=Fal
             # enum dispatch
             cond = og.of_operand(x, bb, 'term')
             nm = name_discr(cond) if name_discr else None
+            if nm and cond[0] != 'discr' and all(isinstance(v_, int) or v_ == 'otherwise' for v_, _ in arms) and len(t['arms']) == 1:
+                # a boolean read from memory (a field, a parameter): an atom of its own
+                atoms.add(nm)
+                for v_, tg_ in arms:
+                    tv = bool(v_) if v_ != 'otherwise' else (t['arms'][0][0] == 0)
+                    if nm in assign and assign[nm] != tv:
+                        continue
+                    a2 = dict(assign)
+                    a2[nm] = tv
+                    walk(tg_, env, a2, seen)
+                return
             if nm and cond[0] == 'discr':
                 atoms.add(nm)
                 for v_, tg_ in arms:
